@@ -49,6 +49,7 @@ class Download:
         self.ended: list[tuple[float, str]] = []              # (t, 'complete'|'eof'|'reset'|...)
         self.failed_msgs: list[tuple[float, object]] = []     # QueueFailed / UploadFailed
         self.complete_at: Optional[float] = None
+        self.closed_at: list[float] = []                      # instants at which we (the peer) ended a file connection
 
 
 class XferPeer:
@@ -368,10 +369,12 @@ class XferPeer:
             how = beh.get('stop_how', 'close')
             dl.ended.append((now, 'peer_' + how))
             if how == 'abort':
+                dl.closed_at.append(now)
                 flink.abort()
             elif how == 'stall':
                 flink.writer.transport.pause_reading()
             else:
+                dl.closed_at.append(now)
                 flink.close()
             return
         if got >= want:
@@ -380,6 +383,7 @@ class XferPeer:
             if beh.get('after_all', 'close') == 'close':
                 if beh.get('close_delay'):
                     await asyncio.sleep(beh['close_delay'])
+                dl.closed_at.append(self.loop.time())
                 flink.close()
             else:
                 # never close: keep reading until the client gives up
@@ -387,6 +391,7 @@ class XferPeer:
                     pass
         else:
             dl.ended.append((now, 'reset' if flink.lost is not None else 'eof'))
+            dl.closed_at.append(now)
             flink.close()
 
 
